@@ -950,7 +950,8 @@ func c16fleet(rep *vh.Report, seed uint64) {
 // was served moments ago, so nothing is requested again and no second event is raised.
 func c16housekeepingWindow(rep *vh.Report) {
 	tr := fake.NewTransport("hk")
-	node := &gomavlib.Node{Endpoints: []gomavlib.EndpointConf{gomavlib.EndpointCustom{ReadWriteCloser: tr}}, Dialect: testDialect, OutVersion: gomavlib.V2, OutSystemID: 9,
+	tr2 := fake.NewTransport("hk2")
+	node := &gomavlib.Node{Endpoints: []gomavlib.EndpointConf{gomavlib.EndpointCustom{ReadWriteCloser: tr}, gomavlib.EndpointCustom{ReadWriteCloser: tr2}}, Dialect: testDialect, OutVersion: gomavlib.V2, OutSystemID: 9,
 		HeartbeatDisable: true, StreamRequestEnable: true}
 	if err := node.Initialize(); err != nil {
 		rep.HarnessError(err.Error())
@@ -960,6 +961,11 @@ func c16housekeepingWindow(rep *vh.Report) {
 	type sid struct{ sys, comp byte }
 	var mu sync.Mutex
 	evs := map[sid][]time.Duration{}
+	type csid struct {
+		ch        *gomavlib.Channel
+		sys, comp byte
+	}
+	perLink := map[csid][]time.Duration{}
 	done := make(chan struct{})
 	go func() {
 		defer close(done)
@@ -968,6 +974,8 @@ func c16housekeepingWindow(rep *vh.Report) {
 				mu.Lock()
 				k := sid{sr.SystemID, sr.ComponentID}
 				evs[k] = append(evs[k], time.Since(t0))
+				ck := csid{sr.Channel, sr.SystemID, sr.ComponentID}
+				perLink[ck] = append(perLink[ck], time.Since(t0))
 				mu.Unlock()
 			}
 		}
@@ -981,6 +989,24 @@ func c16housekeepingWindow(rep *vh.Report) {
 		}
 		for tr.Pending() > 200000 {
 			time.Sleep(time.Millisecond)
+		}
+	}
+	// a second link with 30 000 senders more: over 65 536 (link, system, component) senders inside one 30 s period, which no
+	// single link can hold
+	for comp := 1; comp <= 120; comp++ {
+		for sys := 1; sys <= 250; sys++ {
+			tr2.Feed(hbFrame(byte(sys), byte(comp), 3, 0))
+		}
+		for tr2.Pending() > 200000 {
+			time.Sleep(time.Millisecond)
+		}
+	}
+	waitFor(func() bool { return tr.Pending() == 0 && tr2.Pending() == 0 }, func() int64 { return int64(tr.Pending() + tr2.Pending()) }, 2*time.Second)
+	// the first 2000 senders of the first link are heard again a few seconds after they were served
+	sleepUntil(21 * time.Second)
+	for comp := 1; comp <= 8; comp++ {
+		for sys := 1; sys <= 250; sys++ {
+			tr.Feed(hbFrame(byte(sys), byte(comp), 3, 0))
 		}
 	}
 	// new senders around the housekeeping instant
@@ -1011,6 +1037,23 @@ func c16housekeepingWindow(rep *vh.Report) {
 	defer mu.Unlock()
 	repeated, unserved := 0, 0
 	var first string
+	rep.Count("link_sender_pairs_served_inside_one_period", len(perLink))
+	earlyRepeat := 0
+	for k, ts := range perLink {
+		if len(ts) > 1 && ts[1]-ts[0] < 29*time.Second && k.comp < 170 {
+			earlyRepeat++
+			if first == "" {
+				first = fmt.Sprintf("sender (%d,%d): events %v and %v after the node started", k.sys, k.comp, ts[0].Round(time.Millisecond), ts[1].Round(time.Millisecond))
+			}
+		}
+	}
+	if earlyRepeat > 0 {
+		rep.Violation("what=sr-repeat", fmt.Sprintf("%d senders of a fleet of %d (link, system, component) senders on two links were sent the stream requests a second time within 30 s; %s", earlyRepeat, len(perLink), first), nil)
+		first = ""
+	}
+	if len(perLink) < 65537 {
+		rep.Violation("what=sr-event", fmt.Sprintf("%d of more than 70 000 senders on two links got a stream-requested event", len(perLink)), nil)
+	}
 	for _, k := range late {
 		ts := evs[k]
 		switch {
